@@ -1,7 +1,7 @@
 /-
   PygModel.PerDict — model of `pyg_base._perdictable`: `_item` (lines 63-107), `join` (110-211),
   `_join_dictable_with_defaults` (19-61) and `perdictable._value_output` (297-342) for a function
-  without `.output`, `if_none = False`, `output_is_input = True`, `include_inputs = False`;
+  without `.output`, `if_none` ∈ {False, True}, `output_is_input = True`, `include_inputs = False`;
   `renames` = `None` or a dict parameter → column (`pdJoinR`, `perdictableR`: the renaming
   `d[key] = d[renames[key]]` of lines 85-92 is a pass over the inputs before `join` proper).  Built on the `join` / `xor` of PygModel/Join.lean (`d1 * d2`, `d1 / d2`).
 
@@ -202,21 +202,29 @@ def runExpiry (today : Int) : Cell → Bool
   | .dt us => us ≥ today
   | _ => true
 
-/-- the row loop of line 336: returns the values and the log of calls -/
-def evalRows (f : List Cell → Val) (params : List String) (ds : Table) (hasData : Bool) (today : Int) :
-    List Nat → List Val × List (List Cell)
+/-- `is_none` -/
+def Cell.isNone : Cell → Bool
+  | .none => true
+  | _ => false
+
+/-- the row loop of line 336: returns the values and the log of calls.  `run_if_none` (lines 321-327)
+is all-True without a `data` column, else all-False for `if_none = False` and `is_none(data)` for
+`if_none = True` -/
+def evalRows (ifNone : Bool) (f : List Cell → Val) (params : List String) (ds : Table) (hasData : Bool)
+    (today : Int) : List Nat → List Val × List (List Cell)
   | [] => ([], [])
   | i :: is =>
-    let rest := evalRows f params ds hasData today is
-    if !hasData || runExpiry today (ds.jcellAt "expiry" i) then
+    let rest := evalRows ifNone f params ds hasData today is
+    if !hasData || (ifNone && (ds.jcellAt "data" i).isNone) || runExpiry today (ds.jcellAt "expiry" i) then
       let args := rowArgs ds params i
       (f args :: rest.1, args :: rest.2)
     else (.cell (ds.jcellAt "data" i) :: rest.1, rest.2)
 
 /-- `_value_output` (lines 297-342).  `inputs`: the keyword arguments in call order (possibly
-including `data`), `expiry`: the `expiry` argument (`scalar none` when omitted). -/
+including `data`), `expiry`: the `expiry` argument (`scalar none` when omitted), `ifNone`: the
+`if_none` attribute (False / True). -/
 def perdictable (f : List Cell → Val) (params on : List String) (defaults : List (String × Cell))
-    (inputs : List (String × PInput)) (expiry : PInput) (today : Int) :
+    (inputs : List (String × PInput)) (expiry : PInput) (today : Int) (ifNone : Bool := false) :
     Option (Res (PResult × List (List Cell))) :=
   let inputs' := inputs ++ [("expiry", expiry)]
   -- lines 306-308: `data` and `expiry` always have the default None
@@ -234,7 +242,7 @@ def perdictable (f : List Cell → Val) (params on : List String) (defaults : Li
       some (.ok (.value (f args), [args]))
     else
       let hasData := ds.cols.contains "data"
-      let (values, log) := evalRows f params ds hasData today (List.range ds.nrows)
+      let (values, log) := evalRows ifNone f params ds hasData today (List.range ds.nrows)
       if on.isEmpty then some (.ok (.table [("data", values)], log)) else
       match ds.select on with
       | .error e => some (.error e)
@@ -272,10 +280,10 @@ def pdJoinR (inputs : List (String × PInput)) (on : List String) (renames : Lis
 (a table given as `data` comes back with the assigned column when no row exists: the assignment
 was made on the caller's object) -/
 def perdictableR (f : List Cell → Val) (params on : List String) (renames : List (String × String))
-    (defaults : List (String × Cell)) (inputs : List (String × PInput)) (expiry : PInput) (today : Int) :
-    Option (Res (PResult × List (List Cell))) :=
+    (defaults : List (String × Cell)) (inputs : List (String × PInput)) (expiry : PInput) (today : Int)
+    (ifNone : Bool := false) : Option (Res (PResult × List (List Cell))) :=
   match inputs.mapM (renameInput renames), renameInput renames ("expiry", expiry) with
-  | .ok inputs', .ok e' => perdictable f params on defaults inputs' e'.2 today
+  | .ok inputs', .ok e' => perdictable f params on defaults inputs' e'.2 today ifNone
   | .error e, _ => some (.error e)
   | _, .error e => some (.error e)
 
